@@ -1,7 +1,11 @@
 CHECK = {
     "level": "exploration",
     "assumptions": ["policy patterns are exact paths and trailing-'*' globs (the full pattern language is decided by C03)",
-                    "requests enter at Core.HandleRequest; percent-decoding and header handling of the HTTP layer are outside this unit"],
+                    "unit authz: requests enter at Core.HandleRequest; percent-decoding and header handling of the HTTP layer are covered by unit http",
+                    "unit http: the help operation is not a policy capability - it is served to every live token whatever its policies and namespace, so only the token-state half of the statement is applied to it (counted as observation:help-served-to-token-of-other-namespace)",
+                    "unit http: for list/scan a policy pattern naming the directory without its trailing slash also authorises the listing (the front end appends the slash); the strict form is asserted only for canonical requests, whose generated patterns never name a listed directory without the slash",
+                    "unit http: whether a request refused before the policy check (non-canonical path, redirect, unauthenticated area, help) spends a use of a use-limited token is not asserted; the model keeps an interval of remaining uses",
+                    "unit http: the backend must never be handed a path containing '.' or '..' segments (relative paths are refused, as in unit authz); expiry, disabled entities and a wall clock are not driven through HTTP (covered by unit authz)"],
     "units": [
         unit("authz", "vault", ["vault/c02_test.go"], "^TestVerif_C02_",
              quick={"checks": 150, "shards": 1, "cap": 900, "steps": 30},
